@@ -37,6 +37,10 @@ def gen_items(vseed, tier, n):
         for _ in range(2):
             tables.append({"tables": rng.choice(["LALR", "SLR"]), "ps": rng.random() < 0.4,
                            "pse": rng.random() < 0.4, "ld": rng.choice([None, True, False])})
+        if rng.random() < 0.5:
+            # same automaton options, other scanning option, on one Grammar object
+            tables[1] = dict(tables[0], ld=rng.choice(
+                [x for x in (None, True, False) if x != tables[0]["ld"]]))
         inputs = [pool.gen_input(rng, sc, version=v, p_damage=0.25)[0] for _ in range(3)]
         items.append({"family": sc["family"], "text": sc["texts"][v], "recs": sc["recognizers"][v],
                       "tables": tables, "inputs": inputs})
@@ -212,6 +216,14 @@ def check(tier, vseed, args):
                     if r is None:
                         continue
                     for which in ("first", "second"):
+                        for tk, tv in sorted(r[which][ii].items()):
+                            if isinstance(tv, dict):
+                                for fld in ("same_after_later_builds", "same_when_built_again"):
+                                    if tv.get(fld) is False:
+                                        diffs.append({"shard": si, "item": ii, "hashseed": hs,
+                                                      "construction": which,
+                                                      "field": f"{tk}.{fld}"})
+                    for which in ("first", "second"):
                         d = diff_item(r0, r[which][ii])
                         if d is not None:
                             diffs.append({"shard": si, "item": ii, "hashseed": hs,
@@ -297,6 +309,11 @@ def _differs(item, hashseeds, base, full=False):
     for hs in hashseeds:
         r = res[(hs, 0)]
         for which in ("first", "second"):
+            for tk, tv in sorted(r[which][0].items()):
+                if isinstance(tv, dict):
+                    for fld in ("same_after_later_builds", "same_when_built_again"):
+                        if tv.get(fld) is False:
+                            return (f"{tk}.{fld}", hs, which, a["first"][0], r[which][0])
             d = diff_item(a["first"][0], r[which][0])
             if d is not None:
                 out = (d, hs, which, a["first"][0], r[which][0])
